@@ -225,6 +225,9 @@ fn run_case(ctx: &Ctx, index: u64, rep: &mut Report) {
             }
             Ok(Ok(true)) => {
                 rep.count("programs_roundtripped");
+                if rep.want_sample() && rep.get("programs_roundtripped") % 997 == 1 {
+                    rep.sample(json!({"workload": source, "entered": lines}));
+                }
                 let text = lines.join("\n");
                 let up = text.to_ascii_uppercase();
                 if up.contains("DATA") || up.contains("REM") || text.contains('"') || text.contains('.') {
